@@ -60,10 +60,13 @@ func (p *ParserPlanner) Process(ctx *shared.PlannerContext,
 			if entry.Err != nil {
 				return nil
 			}
-			var err error
-			entry.Labels, err = parser(entry.Message, &entry.Labels)
+			// a line the parser cannot read (not an object, truncated, empty ...) is not fatal for the
+			// query: LogQL keeps the entry with the labels it has
+			if labels, err := parser(entry.Message, &entry.Labels); err == nil {
+				entry.Labels = labels
+			}
 			entry.Fingerprint = fingerprint(entry.Labels)
-			return err
+			return nil
 		},
 		OnAfterEntriesSlice: func(entries []shared.LogEntry, c chan []shared.LogEntry) error {
 			c <- entries
